@@ -9,7 +9,8 @@ SETS = {
     # emphasis, hard / soft breaks at the edges of container-prefixed lines
     "fullA": (["a *b", "c* d", "*e*", "a  ", "a\\", " b", "a ", "**f", "*", "_a", "_ b"], ["", "> ", "- ", "  ", ">"], ["\n", ">\n", "c*"]),
     # links, reference definitions, code spans, raw tags in pieces
-    "fullB": (["[x](/u", "\"t\")", "[a]: /u", "[a]", "[x][a", "]", "`c", "d` e", "<b", "e=\"f\">", "[b]: <v w> 't'", "![i][b]"], ["", "> ", "- ", "  "], ["\n", "[a]"]),
+    "fullB": (["[x](/u", "\"t\")", "[a]: /u", "[a]", "[x][a", "]", "`c", "d` e", "<b", "e=\"f\">", "[b]: <v w> 't'", "![i][b]",
+               "d` **e** f", "\"t\") __g__"], ["", "> ", "- ", "  "], ["\n", "[a]"]),
     # headings, code blocks, HTML blocks, entities, autolinks, images
     "fullC": (["# h *e*", "## ", "a *b*", "===", "---", "```x", "~~~ y&amp;z\\*", "    code <", "<div>", "*a* &amp; \\* &#35;", "1. a", "   b",
                "<http://x.y/%5Bé> <m@x.y>", "`` ` ``", "![*i* &amp; `c` <b> &#35;](/s \"t\")",
